@@ -40,8 +40,15 @@ type c07RaceProg struct {
 	Cold    bool   `json:"cold"`
 	Family  string `json:"family"` // related | mutual | unrelated | readers
 	Prepare bool   `json:"prepare"`
-	Handle  string `json:"handle"` // db | session | ctx | where | leadingOr
+	Handle  string `json:"handle"` // db | session | ctx | where | leadingOr | model | prepsession | debug
 	Ops     int    `json:"ops"`
+	// Derive: how every goroutine derives its OWN handle from the shared one for each operation ("" = uses the shared handle
+	// bare; "mix" = a random derivation per operation; else one of c07DeriveModes for every operation)
+	Derive string `json:"derive,omitempty"`
+	// Conns: connections of the pool (0 = family default: 1 for writing families, 4 for readers); > 1 makes zoo programs read-only
+	Conns int `json:"conns,omitempty"`
+	// Only: restrict the family's operations to this kind (focused probes), "" = all
+	Only string `json:"only,omitempty"`
 }
 
 type c07RacePair struct {
@@ -55,6 +62,8 @@ type c07RaceOutcome struct {
 	Pairs        []c07RacePair `json:"pairs"`
 	Mismatch     string        `json:"mismatch,omitempty"`
 	PtrDiff      string        `json:"ptr_diff,omitempty"`
+	CfgDiff      string        `json:"cfg_diff,omitempty"`
+	TraceDiff    string        `json:"trace_diff,omitempty"`
 	Inconclusive string        `json:"inconclusive,omitempty"`
 	OpKinds      []string      `json:"op_kinds"`
 	Errs         int           `json:"errs"`
@@ -90,13 +99,26 @@ func (C07Plain2) TableName() string { return "rc_plain2" }
 func (C07Plain3) TableName() string { return "rc_plain3" }
 
 var c07AllModels = []interface{}{&RCompany{}, &RProfile{}, &RPet{}, &RLang{}, &RToy{}, &RUser{}, &C07Plain1{}, &C07Plain2{}, &C07Plain3{},
-	&C07ScA{}, &C07ScB{}, &C07ScH{}, &C07ScN{}, &C07ScO{}, &C07ScS{}, &C07ScC{}, &C07ScD{}, &C07ScE{}, &C07ScQ{}}
+	&C07ScA{}, &C07ScB{}, &C07ScH{}, &C07ScN{}, &C07ScO{}, &C07ScS{}, &C07ScC{}, &C07ScD{}, &C07ScE{}, &C07ScQ{}, &C07Zoo{}}
 var c07AllTables = []string{"r_companies", "r_profiles", "r_pets", "r_langs", "r_toys", "r_users", "r_user_langs",
-	"rc_plain1", "rc_plain2", "rc_plain3", "sc_as", "sc_bs", "sc_hs", "sc_ns", "sc_os", "sc_ss", "sc_cs", "sc_ds", "sc_es", "sc_qs"}
+	"rc_plain1", "rc_plain2", "rc_plain3", "sc_as", "sc_bs", "sc_hs", "sc_ns", "sc_os", "sc_ss", "sc_cs", "sc_ds", "sc_es", "sc_qs", "c07_zoos"}
 
 func c07Dump(sqlDB *sql.DB) map[string][]string {
 	out := map[string][]string{}
-	for _, t := range c07AllTables {
+	tables := append([]string{}, c07AllTables...)
+	// tables created by the programs themselves (AutoMigrate through the shared handle): their names and their rows
+	if rows, err := sqlDB.Query("SELECT name FROM sqlite_master WHERE type = 'table' AND name LIKE 'c07_dyn_%' ORDER BY name"); err == nil {
+		var dyn []string
+		for rows.Next() {
+			var n string
+			_ = rows.Scan(&n)
+			dyn = append(dyn, n)
+		}
+		rows.Close()
+		out["sqlite_master"] = dyn
+		tables = append(tables, dyn...)
+	}
+	for _, t := range tables {
 		rows, err := sqlDB.Query("SELECT * FROM " + t)
 		if err != nil {
 			panic("c07Dump: " + t + ": " + err.Error())
@@ -135,7 +157,8 @@ func c07ErrClass(err error) string {
 	case strings.Contains(err.Error(), "locked") || strings.Contains(err.Error(), "busy"):
 		return "locked"
 	default:
-		return "err:" + err.Error()
+		// error texts may print a pointer (gorm: "unsupported data type: 0xc000…"): addresses are not part of the result
+		return "err:" + c07ReHex.ReplaceAllString(err.Error(), "0x?")
 	}
 }
 
@@ -189,6 +212,12 @@ type c07RaceWorker struct {
 	as    []uint // own C07ScA ids
 	ns    []uint
 	ps    []uint // own plain ids
+	zs    []uint // own zoo ids
+	ro    bool   // read-only program (several connections)
+	hmodel bool  // the shared handle carries Model(&C07Zoo{})
+	inTx   bool  // the current operation runs inside a transaction the goroutine opened (derivation begin / transaction)
+	nohold bool  // never keep a connection over several statements (see c07_derive.go, environment rule)
+	only  string
 	kinds map[string]bool
 	errs  int
 	first bool
@@ -600,19 +629,30 @@ type c07RaceRun struct {
 	kinds   map[string]bool
 	errs    int
 	hung    bool
+	cfg     []string       // fingerprint of the shared handle(s) after the program
+	traces  map[string]int // statement shapes traced to the shared handle's logger
 }
 
 // c07RunRaceProg executes one program, serially (reference) or with G concurrent goroutines, on a fresh database.
 func c07RunRaceProg(p c07RaceProg, serial bool) c07RaceRun {
 	setup, _, sqlDB := OpenRec(&gorm.Config{NowFunc: fixedNowFunc})
 	defer sqlDB.Close()
-	if p.Family == "readers" {
-		sqlDB.SetMaxOpenConns(4)
-	} else {
-		sqlDB.SetMaxOpenConns(1)
+	conns := p.Conns
+	if conns <= 0 {
+		conns = 1
+		if p.Family == "readers" {
+			conns = 4
+		}
 	}
+	nohold := c07ProgPrepOn(p) && !(p.Family == "zoo" && conns >= p.G)
+	sqlDB.SetMaxOpenConns(conns)
 	if err := setup.AutoMigrate(c07AllModels...); err != nil {
 		panic(err)
+	}
+	if p.Family == "zoo" {
+		for g := 0; g < p.G; g++ {
+			c07ZooSeed(setup, g)
+		}
 	}
 	if p.Family == "readers" {
 		for g := 0; g < p.G; g++ {
@@ -624,7 +664,8 @@ func c07RunRaceProg(p c07RaceProg, serial bool) c07RaceRun {
 		}
 	}
 	// the shared handle: a fresh gorm.Open has its own (cold) schema cache, callbacks and statement cache
-	cfg := &gorm.Config{NowFunc: fixedNowFunc, Logger: setup.Logger, PrepareStmt: p.Prepare}
+	tlog := c07NewTraceLogger()
+	cfg := &gorm.Config{NowFunc: fixedNowFunc, Logger: tlog, PrepareStmt: p.Prepare}
 	shared, err := gorm.Open(sqlite.Dialector{Conn: sqlDB}, cfg)
 	if err != nil {
 		panic(err)
@@ -639,11 +680,22 @@ func c07RunRaceProg(p c07RaceProg, serial bool) c07RaceRun {
 			return shared.Where("id >= ?", 0).Where("age >= ?", 0).Session(&gorm.Session{})
 		case "leadingOr":
 			return shared.Or("id < ?", 0).Where("age >= ?", 0).Session(&gorm.Session{})
+		case "idwhere":
+			return shared.Where("id >= ?", 0).Where("id < ?", 1<<40).Session(&gorm.Session{})
+		case "model":
+			if conns == 1 { // writing program: the Model object would be written by every goroutine's operations (caller's memory, not gorm's)
+				return shared.Table("c07_zoos").Session(&gorm.Session{})
+			}
+			return shared.Model(&C07Zoo{}).Session(&gorm.Session{})
+		case "prepsession": // ONE prepared-statement session used by all goroutines
+			return shared.Session(&gorm.Session{PrepareStmt: true})
+		case "debug":
+			return shared.Debug()
 		default:
 			return shared
 		}
 	}
-	op := func(w *c07RaceWorker, h *gorm.DB) string {
+	op0 := func(w *c07RaceWorker, h *gorm.DB) string {
 		switch p.Family {
 		case "related":
 			return w.opRelated(h)
@@ -651,13 +703,25 @@ func c07RunRaceProg(p c07RaceProg, serial bool) c07RaceRun {
 			return w.opMutual(h)
 		case "readers":
 			return w.opReader(h)
+		case "zoo":
+			return w.opZoo(h)
 		default:
 			return w.opPlain(h)
 		}
 	}
+	// every operation runs on a handle the goroutine derives for itself from the shared one (p.Derive)
+	op := func(w *c07RaceWorker, h *gorm.DB) string {
+		if p.Derive == "" {
+			return op0(w, h)
+		}
+		return w.derived(h, p.Derive, func(d *gorm.DB) string { return op0(w, d) })
+	}
 	if !p.Cold {
 		// warm: every operation kind, serially, on a reserved id block, before the goroutines start
-		w := &c07RaceWorker{g: 90, base: 900000, rng: rand.New(rand.NewSource(p.Seed + 5)), kinds: map[string]bool{}}
+		w := &c07RaceWorker{g: 90, base: 900000, rng: rand.New(rand.NewSource(p.Seed + 5)), kinds: map[string]bool{}, ro: conns > 1, only: p.Only, nohold: nohold, hmodel: p.Handle == "model" && conns > 1}
+		if p.Family == "zoo" {
+			c07ZooSeed(setup, 89)
+		}
 		hw := mk()
 		for _, m := range c07AllModels {
 			st := &gorm.Statement{DB: shared}
@@ -682,8 +746,9 @@ func c07RunRaceProg(p c07RaceProg, serial bool) c07RaceRun {
 	workers := make([]*c07RaceWorker, p.G)
 	outs := make([][]string, p.G)
 	for g := 0; g < p.G; g++ {
-		workers[g] = &c07RaceWorker{g: g, base: uint(g+1) * 10000, rng: rand.New(rand.NewSource(p.Seed*131 + int64(g))), kinds: map[string]bool{}, first: true}
+		workers[g] = &c07RaceWorker{g: g, base: uint(g+1) * 10000, rng: rand.New(rand.NewSource(p.Seed*131 + int64(g))), kinds: map[string]bool{}, first: true, ro: conns > 1, only: p.Only, nohold: nohold, hmodel: p.Handle == "model" && conns > 1}
 	}
+	ident := c07Identify(shared, handles)
 	// "stampede" (half of the cold programs): every goroutine's very first action is Statement.Parse of every model type of
 	// its family, in a rotated order; the *schema.Schema each goroutine received is recorded (single-winner observable)
 	var fam []interface{}
@@ -692,6 +757,8 @@ func c07RunRaceProg(p c07RaceProg, serial bool) c07RaceRun {
 		fam = []interface{}{&C07ScA{}, &C07ScB{}, &C07ScQ{}, &C07ScN{}, &C07ScO{}, &C07ScC{}, &C07ScD{}, &C07ScE{}, &C07ScS{}, &C07ScH{}}
 	case "related", "readers":
 		fam = []interface{}{&RUser{}, &RPet{}, &RCompany{}, &RProfile{}, &RLang{}, &RToy{}}
+	case "zoo":
+		fam = []interface{}{&C07Zoo{}, &C07ZooLite{}}
 	default:
 		fam = []interface{}{&C07Plain1{}, &C07Plain2{}, &C07Plain3{}}
 	}
@@ -718,6 +785,17 @@ func c07RunRaceProg(p c07RaceProg, serial bool) c07RaceRun {
 		}
 	}
 	res := c07RaceRun{kinds: map[string]bool{}}
+	c07ZooGate.Store(nil)
+	if !serial && p.Family == "zoo" {
+		need := p.G
+		if conns < need {
+			need = conns
+		}
+		if need >= 2 {
+			c07ZooGate.Store(c07NewGate(need))
+		}
+	}
+	defer c07ZooGate.Store(nil)
 	if serial {
 		for g := 0; g < p.G; g++ {
 			body(g)
@@ -738,7 +816,7 @@ func c07RunRaceProg(p c07RaceProg, serial bool) c07RaceRun {
 		go func() { wg.Wait(); close(done) }()
 		select {
 		case <-done:
-		case <-time.After(120 * time.Second):
+		case <-time.After(c07HangAfter):
 			res.hung = true
 			return res
 		}
@@ -760,6 +838,8 @@ func c07RunRaceProg(p c07RaceProg, serial bool) c07RaceRun {
 	}
 	res.outs = outs
 	res.dump = c07Dump(sqlDB)
+	res.cfg = c07Fingerprint(shared, handles, ident)
+	res.traces = tlog.snapshot()
 	return res
 }
 
@@ -928,7 +1008,18 @@ func c07RaceChild(r *Result, rng *rand.Rand, tier string) {
 		}
 		t0 := time.Now()
 		o := c07RaceOutcome{Prog: p, Pairs: []c07RacePair{}}
-		ref := c07RunRaceProg(p, true)
+		// the serial reference run under a watchdog too (a program that cannot even finish alone is not judged)
+		refCh := make(chan c07RaceRun, 1)
+		go func() { refCh <- c07RunRaceProg(p, true) }()
+		var ref c07RaceRun
+		select {
+		case ref = <-refCh:
+		case <-time.After(c07HangAfter):
+			o.Inconclusive = fmt.Sprintf("SERIAL reference run did not finish within %v", c07HangAfter)
+			outcomes = append(outcomes, o)
+			flush()
+			continue
+		}
 		// anything the detector wrote during the serial reference run is attributed to it (expected: nothing)
 		if lb, err := os.ReadFile(logFile); err == nil && len(lb) > off {
 			for _, pr := range c07ParseRaceReports(string(lb[off:])) {
@@ -944,7 +1035,7 @@ func c07RaceChild(r *Result, rng *rand.Rand, tier string) {
 			off = len(lb)
 		}
 		if got.hung {
-			o.Inconclusive = "program did not finish within 120 s"
+			o.Inconclusive = fmt.Sprintf("program did not finish within %v", c07HangAfter)
 			outcomes = append(outcomes, o)
 			flush()
 			break // goroutines are stuck; this process cannot be trusted further
@@ -981,6 +1072,36 @@ func c07RaceChild(r *Result, rng *rand.Rand, tier string) {
 				if canon(ref.dump[t]) != canon(got.dump[t]) {
 					o.Mismatch = fmt.Sprintf("final rows of %s differ: serial=%v concurrent=%v", t, ref.dump[t], got.dump[t])
 					break
+				}
+			}
+		}
+		if o.Mismatch == "" && o.Inconclusive == "" {
+			for i := range ref.cfg {
+				if i >= len(got.cfg) || ref.cfg[i] != got.cfg[i] {
+					gs := "<missing>"
+					if i < len(got.cfg) {
+						gs = got.cfg[i]
+					}
+					o.CfgDiff = fmt.Sprintf("after the serial run: %s; after the concurrent run: %s", ref.cfg[i], gs)
+					break
+				}
+			}
+			if canon(ref.traces) != canon(got.traces) {
+				var ks []string
+				for k := range ref.traces {
+					ks = append(ks, k)
+				}
+				for k := range got.traces {
+					if _, ok := ref.traces[k]; !ok {
+						ks = append(ks, k)
+					}
+				}
+				sort.Strings(ks)
+				for _, k := range ks {
+					if ref.traces[k] != got.traces[k] {
+						o.TraceDiff = fmt.Sprintf("statement shape %q traced %d times by the shared handle's logger in the serial run, %d times in the concurrent run", k, ref.traces[k], got.traces[k])
+						break
+					}
 				}
 			}
 		}
@@ -1088,22 +1209,52 @@ func c07RunRaceChild(progs []c07RaceProg, budget time.Duration) ([]c07RaceOutcom
 
 var c07Thorough = false
 
+// a program whose goroutines have not finished after this long is reported as inconclusive
+var c07HangAfter = 30 * time.Second
+
 func c07GenRaceProg(rng *rand.Rand) c07RaceProg {
 	gs := []int{2, 4, 8, 16}
 	if c07Thorough {
 		gs = []int{2, 4, 8, 16, 32}
 	}
-	fams := []string{"related", "mutual", "mutual", "mutual", "unrelated", "readers"}
+	fams := []string{"related", "mutual", "mutual", "mutual", "unrelated", "readers", "zoo", "zoo", "zoo", "zoo"}
 	p := c07RaceProg{Seed: rng.Int63n(1 << 40), G: gs[rng.Intn(len(gs))], Cold: rng.Intn(2) == 0, Family: fams[rng.Intn(len(fams))],
 		Prepare: rng.Intn(3) == 0, Ops: 4 + rng.Intn(8)}
 	switch p.Family {
 	case "readers":
 		p.Handle = []string{"where", "session", "db"}[rng.Intn(3)]
+	case "zoo":
+		p.Handle = []string{"db", "db", "session", "ctx", "idwhere", "model", "prepsession", "debug"}[rng.Intn(8)]
+		p.Cold = rng.Intn(4) != 0 // cold = empty per-field pools
+		// read-only on several connections: scans really overlap.  A handle that carries Model(&obj) shares the caller's OBJECT
+		// between the goroutines (gorm writes keys / timestamps back into it): only used by read-only programs
+		if rng.Intn(2) == 0 || p.Handle == "model" {
+			p.Conns = []int{2, 4, 8}[rng.Intn(3)]
+		}
 	default:
 		p.Handle = []string{"db", "session", "ctx"}[rng.Intn(3)]
 	}
+	// per-goroutine derivations: a third of the programs use the shared handle bare (no Config copy anywhere), the others
+	// derive a handle per operation — a random one, or the same kind for every operation (contention on that path)
+	switch rng.Intn(6) {
+	case 0, 1:
+	case 2:
+		p.Derive = "mix"
+	case 3:
+		p.Derive = "mixhold" // includes Begin / Transaction / Connection wrappers, no prepared statements (environment rule)
+		if p.Prepare || p.Handle == "prepsession" {
+			p.Derive = "mix"
+		}
+	case 4:
+		p.Derive = []string{"prepare", "prepare-begin", "combo", "session-of-session"}[rng.Intn(4)]
+	default:
+		p.Derive = c07DeriveModes[1+rng.Intn(len(c07DeriveModes)-1)]
+	}
 	if p.G >= 8 {
 		p.Ops = 3 + rng.Intn(4)
+	}
+	if p.Family == "zoo" && c07ProgPrepOn(p) && c07HoldModes[p.Derive] {
+		p.Conns = p.G // prepared statements inside per-goroutine transactions: one connection per goroutine, read-only
 	}
 	return p
 }
@@ -1118,6 +1269,10 @@ func c07JudgeRaceOutcomes(r *Result, outcomes []c07RaceOutcome, probe string) {
 		r.H("race.cache", map[bool]string{true: "cold", false: "warm"}[p.Cold])
 		r.H("race.prepareStmt", fmt.Sprint(p.Prepare))
 		r.H("race.handle", p.Handle)
+		r.H("race.derive", map[bool]string{true: "(shared handle used bare)", false: p.Derive}[p.Derive == ""])
+		if p.Conns > 0 {
+			r.H("race.conns", fmt.Sprint(p.Conns))
+		}
 		for _, k := range o.OpKinds {
 			r.H("race.op", k)
 		}
@@ -1137,6 +1292,18 @@ func c07JudgeRaceOutcomes(r *Result, outcomes []c07RaceOutcome, probe string) {
 			r.H("race.result", "inconclusive")
 			r.Note("inconclusive (not judged): %s: %s", key, o.Inconclusive)
 			continue
+		}
+		if o.CfgDiff != "" {
+			r.H("race.result", "handle-config-differs")
+			r.Violate(Violation{Kind: "e2e", Suite: "race", Input: p, Observed: o.CfgDiff,
+				Expected: "the shared handle (configuration, logger identity, conn pool, callbacks, its own Statement) is what the serial run of the same programs leaves",
+				Note:     "operations issued concurrently through the shared handle changed the handle itself: every later operation through it runs differently than alone"})
+		}
+		if o.TraceDiff != "" {
+			r.H("race.result", "trace-differs")
+			r.Violate(Violation{Kind: "e2e", Suite: "race", Input: p, Observed: o.TraceDiff,
+				Expected: "every operation reports the same statements to the shared handle's logger as when it runs alone",
+				Note:     "statements were lost / attributed to another logger under concurrency"})
 		}
 		if o.Mismatch != "" {
 			r.H("race.result", "result-mismatch")
@@ -1222,9 +1389,16 @@ func c07RaceParent(r *Result, rng *rand.Rand, tier string) {
 		{Seed: 11, G: 16, Cold: true, Family: "mutual", Handle: "db", Ops: 4},
 		{Seed: 12, G: 16, Cold: false, Family: "readers", Handle: "leadingOr", Ops: 9},
 	}
+	if os.Getenv("C07_DEV_NOPROBES") != "" { // development aid
+		probes = nil
+	}
 	for i, pp := range probes {
 		seen := false
-		for attempt := 0; attempt < 8 && !seen; attempt++ {
+		maxAttempts := 8
+		if pp.Handle == "leadingOr" && !listed("F11-C07-where-build-swap") {
+			maxAttempts = 2 // F11 is repaired in this tree: two runs confirm that the probe stays clean
+		}
+		for attempt := 0; attempt < maxAttempts && !seen; attempt++ {
 			pp.Seed += int64(attempt) * 100
 			outs, note := c07RunRaceChild([]c07RaceProg{pp}, 60*time.Second)
 			c07JudgeChildEnd(r, []c07RaceProg{pp}, outs, note)
@@ -1246,7 +1420,7 @@ func c07RaceParent(r *Result, rng *rand.Rand, tier string) {
 	}
 	// probe for concurrent back-reference writers (C07ScA and C07ScQ both insert into C07ScB): every goroutine first parses every
 	// model of the family (stampede, even seed); three fresh processes because the detector reports a stack pair once per process
-	for attempt := 0; attempt < 3; attempt++ {
+	for attempt := 0; attempt < 3 && os.Getenv("C07_DEV_NOPROBES") == ""; attempt++ {
 		pp := c07RaceProg{Seed: 10 + int64(attempt)*2, G: 16, Cold: true, Family: "mutual", Handle: "db", Ops: 3}
 		outs, note := c07RunRaceChild([]c07RaceProg{pp}, 60*time.Second)
 		c07JudgeChildEnd(r, []c07RaceProg{pp}, outs, note)
@@ -1258,6 +1432,28 @@ func c07RaceParent(r *Result, rng *rand.Rand, tier string) {
 	var progs []c07RaceProg
 	for i := 0; i < nprogs; i++ {
 		progs = append(progs, c07GenRaceProg(rng))
+	}
+	// fixed programs (every run): one per shared mechanism, each with maximal contention on that mechanism
+	progs = append(progs,
+		// cold per-field pools, every field kind, scans overlapping on 8 connections (gate inside the user types' Scan)
+		c07RaceProg{Seed: 2 + rng.Int63n(1<<20)*2, G: 8, Cold: true, Family: "zoo", Handle: "db", Ops: 4, Conns: 8},
+		c07RaceProg{Seed: 1 + rng.Int63n(1<<20)*2, G: 4, Cold: true, Family: "zoo", Handle: "session", Ops: 5, Conns: 4, Only: "0,1,3,5,6,7,11,12"},
+		// every goroutine derives its OWN prepared-statement session / transaction and runs texts nobody prepared yet
+		c07RaceProg{Seed: rng.Int63n(1 << 30), G: 8, Cold: true, Family: "zoo", Handle: "db", Ops: 6, Derive: "prepare"},
+		c07RaceProg{Seed: rng.Int63n(1 << 30), G: 8, Cold: false, Family: "unrelated", Handle: "session", Ops: 6, Derive: "prepare"},
+		c07RaceProg{Seed: rng.Int63n(1 << 30), G: 8, Cold: true, Family: "zoo", Handle: "session", Ops: 5, Derive: "prepare-begin", Conns: 8},
+		// Scan / Rows / Row / Pluck / Count finishers overlapping on the bare shared handle (no Config copy anywhere)
+		c07RaceProg{Seed: rng.Int63n(1 << 30), G: 8, Cold: false, Family: "zoo", Handle: "db", Ops: 6, Only: "5,6,7,8,9,10,0"},
+		c07RaceProg{Seed: rng.Int63n(1 << 30), G: 4, Cold: true, Family: "zoo", Handle: "idwhere", Ops: 8, Conns: 4, Only: "5,6,8,10,15,1"},
+		// finishers called directly on the shared handle (a handle that carries a Model): the receiver is the shared *gorm.DB itself
+		c07RaceProg{Seed: rng.Int63n(1 << 30), G: 8, Cold: rng.Intn(2) == 0, Family: "zoo", Handle: "model", Ops: 8, Conns: 8, Only: "30,30,30,9,10,5"},
+		c07RaceProg{Seed: rng.Int63n(1 << 30), G: 8, Cold: false, Family: "zoo", Handle: "model", Ops: 6, Conns: 8, Only: "30"},
+	)
+	if dev := os.Getenv("C07_DEV_PROGS"); dev != "" { // development aid: run exactly these programs
+		progs = nil
+		if err := json.Unmarshal([]byte(dev), &progs); err != nil {
+			r.Note("C07_DEV_PROGS: %v", err)
+		}
 	}
 	// shard over a few subprocesses so a hang only loses one shard
 	shards := 4
